@@ -35,8 +35,22 @@ fn run<P: Kmer>(k: usize, rc: bool, perm: Option<&[usize]>, container: &str, rea
     out.join("|")
 }
 
-/// `msp <k> <p> <rc> <perm|default> <container> <read,read,…>`
+#[allow(deprecated)]
+fn sscan<P: Kmer>(k: usize, rc: bool, perm: &[usize], read: &[u8]) -> String {
+    let ivs = debruijn::msp::simple_scan::<_, P>(k, &DnaBytes(read.to_vec()), perm, rc);
+    if ivs.is_empty() { return "-".into(); }
+    ivs.iter().map(|iv| format!("{}:{}:{}", iv.bucket(), iv.start(), iv.len())).collect::<Vec<_>>().join(";")
+}
+
+/// `msp <k> <p> <rc> <perm|default> <container> <read,read,…>` | `sscan <k> <p> <rc> <perm> <read>`
 pub fn exec(a: &[&str]) -> String {
+    if a[0] == "sscan" {
+        let k: usize = a[1].parse().unwrap();
+        let p: usize = a[2].parse().unwrap();
+        let perm = nat_list(a[4]);
+        let read = digits(a[5]);
+        return with_kmer_type!(p, sscan, k, a[3] == "1", &perm, &read);
+    }
     assert!(a[0] == "msp");
     let k: usize = a[1].parse().unwrap();
     let p: usize = a[2].parse().unwrap();
@@ -104,6 +118,13 @@ pub fn gen(rng: &mut Rng, tier: &str) -> String {
         show_nat_list(&v)
     };
     let rc = rng.chance(1, 2);
+    if rng.chance(1, 12) {
+        // the deprecated wrapper `simple_scan`: explicit permutation (sometimes one entry short), one read (sometimes shorter than k)
+        let n = 1usize << (2 * p);
+        let mut v: Vec<usize> = if perm == "default" { (0..n).collect() } else { nat_list(&perm) };
+        if rng.chance(1, 10) { v.pop(); }
+        return format!("C08 sscan {} {} {} {} {}", k, p, if rc { 1 } else { 0 }, show_nat_list(&v), show_digits(&reads[0]));
+    }
     let rs: Vec<String> = reads.iter().map(|r| show_digits(r)).collect();
     format!("C08 msp {} {} {} {} {} {}", k, p, if rc { 1 } else { 0 }, perm, container, rs.join(","))
 }
